@@ -747,3 +747,146 @@ def emitted_tuple_displays(repo: Repo, rep: Report, rule: str) -> None:
                             rep.violation(rule, fi.key, inst + " for any number of items", "with a single item `(x)` is not a tuple: a str item turns the membership test into a "
                                           "substring test ('' and 'ab' pass for Literal['abc']), a class item raises TypeError", loc=_loc(fi, c))
     rep.floor(rule, 1)
+
+
+# ------------------------------------------------------------------------------------------------ batch 3
+def speculative_variant_calls_guarded(repo: Repo, rep: Report, rule: str) -> None:
+    """Without a discriminator field every variant is *tried*: each emitted `return <variant>.<from_dict call>` of
+    DiscriminatedUnionUnpackerBuilder that belongs to the no-field mode sits inside an emitted `try:` whose handler
+    skips to the next variant -- including the retry emitted after compiling a variant on demand, which runs inside an
+    `except AttributeError:` handler where the loop's own `except Exception: pass` does not apply."""
+    n = 0
+    for qn in ("DiscriminatedUnionUnpackerBuilder._add_body", "DiscriminatedUnionUnpackerBuilder._add_build_variant_unpacker"):
+        fi = repo.func(M_UNPACK, qn)
+        par = _parents(fi.node)
+        for c in _own_nodes(fi.node):
+            if not (isinstance(c, ast.Call) and ast.unparse(c.func) == "lines.append" and c.args and isinstance(c.args[0], ast.JoinedStr)):
+                continue
+            txt = ast.unparse(c.args[0])
+            if not (_strings(c.args[0]).startswith("return ") and "variant_method_call" in txt):
+                continue
+            # no-field context?
+            p, nofield, tried = c, False, False
+            while p in par:
+                q = par[p]
+                if isinstance(q, ast.With) and any(ast.unparse(it.context_expr) in ("lines.indent('try:')",) for it in q.items) and not nofield:
+                    tried = True
+                if isinstance(q, ast.If) and "discriminator.field" in ast.unparse(q.test):
+                    neg = isinstance(q.test, ast.UnaryOp) and isinstance(q.test.op, ast.Not)
+                    in_body = any(p is b for b in q.body)
+                    if (neg and in_body) or (not neg and not in_body):
+                        nofield = True
+                        break
+                p = q
+            if not nofield:
+                continue
+            n += 1
+            inst = f"{qn.split('.')[-1]}: no-field mode emits `{_strings(c.args[0])[:40]}...`"
+            if tried:
+                rep.ok(rule, inst + " inside try:", None)
+            else:
+                rep.violation(rule, fi.key, inst + " outside any try:", "in no-field mode a variant that rejects the input must be skipped; the retry after an on-demand compilation runs "
+                              "inside the `except AttributeError` handler, so an unguarded call lets the first non-matching variant's error escape (first call only)", loc=_loc(fi, c))
+    rep.floor(rule, 3)
+
+
+def _single_compare(fi: FuncInfo, test: ast.AST, a: str, b: str) -> Optional[bool]:
+    if isinstance(test, ast.Compare) and len(test.ops) == 1 and isinstance(test.ops[0], (ast.Is, ast.Eq)):
+        l, r = ast.unparse(test.left), ast.unparse(test.comparators[0])
+        return {l, r} == {a, b}
+    return False
+
+
+def identity_guards(repo: Repo, rep: Report, rule_union: str, rule_schema: str, rule_fwd: str, only: Optional[Set[str]] = None) -> None:
+    """Three guards whose operands matter:
+    (union) UnionUnpackerBuilder._get_existing_method reuses the method under construction only when the owner *is* the
+    type being unpacked (`spec.owner is spec.type`) -- any other union nested below must get its own method;
+    (schema) on_type_with_overridden_serialization stops when the override returns `instance.type`, the attribute that
+    update_type replaces (the fixpoint of the re-entry);
+    (forward refs) Instance.derive resolves a ForwardRef in the globals of `self.type`, the type that carries the annotation."""
+    if only is None or rule_union in only:
+        fi = repo.func(M_UNPACK, "UnionUnpackerBuilder._get_existing_method")
+        ifs = [st for st in fi.node.body if isinstance(st, ast.If)]
+        if len(ifs) != 1:
+            rep.undecide(rule_union, "_get_existing_method is no longer a single guarded return")
+        else:
+            ok = _single_compare(fi, ifs[0].test, "spec.owner", "spec.type")
+            inst = f"_get_existing_method: reuse guarded by `{ast.unparse(ifs[0].test)}`"
+            if ok:
+                rep.ok(rule_union, inst, None)
+            else:
+                rep.violation(rule_union, fi.key, inst, "the method under construction belongs to one union; a different union nested inside one of its members (List[Union[float, date]] "
+                              "inside Union[int, List[...]]) must not be decoded by it: values are coerced by the outer members", loc=_loc(fi, ifs[0]))
+    if only is None or rule_schema in only:
+        fi = repo.func(M_SCHEMA, "on_type_with_overridden_serialization")
+        cmps = [st for st in _own_nodes(fi.node) if isinstance(st, ast.If) and "new_type" in ast.unparse(st.test)]
+        if len(cmps) != 1:
+            rep.undecide(rule_schema, "on_type_with_overridden_serialization: the re-entry guard was not found")
+        else:
+            ok = _single_compare(fi, cmps[0].test, "new_type", "instance.type")
+            inst = f"on_type_with_overridden_serialization: re-entry stops when `{ast.unparse(cmps[0].test)}`"
+            if ok:
+                rep.ok(rule_schema, inst, None)
+            else:
+                rep.violation(rule_schema, fi.key, inst, "get_schema is re-entered after update_type(new_type) replaced instance.type; the recursion ends only when the override returns "
+                              "that same attribute -- compared with anything else (the Annotated original) a strategy returning its own type recurses without bound", loc=_loc(fi, cmps[0]))
+    if only is None or rule_fwd in only:
+        fi = repo.func(M_SCHEMA, "Instance.derive")
+        calls = [c for c in _own_nodes(fi.node) if isinstance(c, ast.Call) and ast.unparse(c.func) == "get_forward_ref_referencing_globals"]
+        if len(calls) != 1 or len(calls[0].args) < 2:
+            rep.undecide(rule_fwd, "Instance.derive: forward-reference resolution was not found")
+        else:
+            arg = ast.unparse(calls[0].args[1])
+            inst = f"Instance.derive: forward references are resolved in the globals of `{arg}`"
+            if arg == "self.type":
+                rep.ok(rule_fwd, inst, None)
+            else:
+                rep.violation(rule_fwd, fi.key, inst, "a string annotation names something in the module of the type that carries it (the NamedTuple / TypedDict / dataclass being "
+                              "walked), not in the module of the dataclass that uses that type as a field: build_json_schema raises NameError across modules", loc=_loc(fi, calls[0]))
+
+
+def no_memo_across_literal_values(repo: Repo, rep: Report, rule: str) -> None:
+    """In the Literal packer / unpacker each literal value is rendered from its own type: no name computed from the loop
+    variable is memoised across iterations (`if name is None: name = f(type(value))`) -- a Literal may mix members of
+    several Enum classes."""
+    n = 0
+    for mod, qn in ((M_PACK, "pack_literal"), (M_UNPACK, "LiteralUnpackerBuilder._add_body")):
+        fi = repo.func(mod, qn)
+        for loop in [x for x in _own_nodes(fi.node) if isinstance(x, ast.For)]:
+            n += 1
+            lv = {t.id for t in ast.walk(loop.target) if isinstance(t, ast.Name)}
+            bad = None
+            for st in ast.walk(loop):
+                if isinstance(st, ast.If) and isinstance(st.test, ast.Compare) and len(st.test.ops) == 1 and isinstance(st.test.ops[0], ast.Is) \
+                        and isinstance(st.test.comparators[0], ast.Constant) and st.test.comparators[0].value is None and isinstance(st.test.left, ast.Name):
+                    nm = st.test.left.id
+                    for b in st.body:
+                        if isinstance(b, ast.Assign) and ast.unparse(b.targets[0]) == nm and lv & {x.id for x in ast.walk(b.value) if isinstance(x, ast.Name)}:
+                            bad = (nm, st)
+            inst = f"{qn}: loop over `{ast.unparse(loop.iter)[:40]}`"
+            if bad:
+                rep.violation(rule, fi.key, inst + f" memoises `{bad[0]}` from the first value", "the name rendered for the first enum member is reused for members of another Enum class: "
+                              "the generated code compares with Color.CALM for Mood.CALM (AttributeError, or a wrong member accepted)", loc=_loc(fi, bad[1]))
+            else:
+                rep.ok(rule, inst + " renders every value from its own type", None)
+    rep.floor(rule, 2)
+
+
+def codec_binds_from_attrs(repo: Repo, rep: Report, rule: str) -> None:
+    """pack_dataclass / unpack_dataclass bind a nested dataclass method into generated code only from the builder's own
+    holder (`getattr(spec.attrs, method_name)`): a method found on the class itself was compiled for the class's mixin
+    configuration, not for this codec's default dialect."""
+    n = 0
+    for mod, qn in ((M_PACK, "pack_dataclass"), (M_UNPACK, "unpack_dataclass")):
+        fi = repo.func(mod, qn)
+        for c in _own_nodes(fi.node):
+            if isinstance(c, ast.Call) and ast.unparse(c.func).endswith("ensure_object_imported") and len(c.args) == 2 and "method_name" in ast.unparse(c.args[1]):
+                n += 1
+                src = ast.unparse(c.args[0])
+                inst = f"{qn}: binds `{src[:60]}`"
+                if src == "getattr(spec.attrs, method_name)":
+                    rep.ok(rule, inst, None)
+                else:
+                    rep.violation(rule, fi.key, inst, "a codec compiles nested dataclasses with its own default dialect into its own holder; binding the class's own compiled method "
+                                  "instead makes the codec ignore its dialect level for dataclasses that also inherit a mixin", loc=_loc(fi, c))
+    rep.floor(rule, 2)
